@@ -1622,7 +1622,8 @@ def drv_histories_exhaustive(tier, seed):
                 '(twins/strict: % 24)'
                 if quick else
                 'core x core, non-core x core[seed%16::16] and the converse; '
-                'length 3: core[seed%8::8]^3')))
+                'length 3: core[seed%8::8]^3 (twins/strict: core x core with '
+                '(j - i) % 4 == seed % 4; length 3: core[seed%16::16]^3)')))
   with _Watchdog(10) as wd:
     for kind in _initial_trees(rec):
       ops = alphabet(kind)
@@ -1633,6 +1634,13 @@ def drv_histories_exhaustive(tier, seed):
         _enumerate(rec, kind, core,
                    lambda i: core[(i + seed) % m::m],  # pylint: disable=cell-var-from-loop
                    wd=wd, record_first=False)
+      elif kind in EXTRA_KINDS:
+        _enumerate(rec, kind, ops, [], wd=wd)
+        _enumerate(rec, kind, core,
+                   lambda i: core[(i + seed) % 4::4],  # pylint: disable=cell-var-from-loop
+                   wd=wd, record_first=False)
+        small = core[(seed % 16)::16]
+        _enumerate(rec, kind, small, small, small, wd=wd, record_first=False)
       else:
         _enumerate(rec, kind, ops, [], wd=wd)
         _enumerate(rec, kind, core, core, wd=wd, record_first=False)
